@@ -26,6 +26,7 @@ TileMerger
 """.split()
 
 import numpy as np
+import os
 import warnings
 
 from . import pyramid
@@ -179,6 +180,14 @@ class TileMerger(object):
         img3 = self._pio.read_image(children[3], default="none")
 
         if img0 is None and img1 is None and img2 is None and img3 is None:
+            # Nothing to merge, so there is no tile here. If we're overwriting a
+            # tile pyramid, a tile left over from an earlier cascade must not
+            # survive (cf. PyramidIO.write_image), or it would be merged into
+            # the levels above.
+            try:
+                os.unlink(self._pio.tile_path(pos, makedirs=False))
+            except OSError:
+                pass
             return
 
         if self._buf is not None:
